@@ -91,6 +91,7 @@ FIXED = [
  ("C14", "crash:signal6:stack-overflow (/JBIG2Globals names its own stream)", "streams inside filter parameters are nested at most 4 deep", "a stream whose /DecodeParms << /JBIG2Globals N 0 R >> is the stream itself recursed while its filter list was built (found by a code-reading agent; C14's fragment now has such a pair under the reference substitutions)"),
  ("C20", "crash:stack-overflow / panic:pdf/src/build.rs:*clone_rcref*unwrap", "the importer's typed reference paths record the copy before descending", "importing a page whose image is its own /SMask or whose form lists itself in its resources overflowed the stack; a property list used inline (<< /K 7 0 R >> BDC) and by name (/MC0 BDC) panicked on Option::unwrap in clone_rcref (found by a code-reading agent; C20 now imports from hostile sources)"),
  ("C14", "hang / resource:total-allocation-out-of-proportion (shared objects without a cache)", "an object reachable along several paths is loaded once per call", "uncached: Type0 fonts whose /DescendantFonts name the next font four times, depth 24 (4 KB): loading the font never finished (found by a code-reading agent; kept in corpus/hostile); a backstop of 100 000 loads per call was added as well"),
+ ("C01", "time out of proportion (members of one object stream read without a cache)", "the object stream used last is kept", "uncached: resolving the 8000 members of one 52 KB object stream re-inflated it and re-read all 16000 header integers for every member: minutes in a debug build, quadratic in the file size (found by a code-reading agent; within the harness's time budget, so it was never reported as a violation; kept in corpus/hostile)"),
 ]
 OPEN = [
  ("C20", "c20:resource-missing:ColorSpace", "an imported page whose content names a colour space resource (/CS1 cs) arrives without /ColorSpace: deep_clone_op does not copy colour space resources; a repair needs writers for most ColorSpace variants (ColorSpace::to_primitive is unimplemented!() except for three), so it is recorded"),
